@@ -525,6 +525,20 @@ func TestC19Host(t *testing.T) {
 			if f := checkRefused(w, m, host, q); f != "" {
 				t.Fatalf("route %s, %s %s, Host %q (%s): %s", rt.name, m, q.target, host, class, f)
 			}
+			// the verdict does not wear off: the very same request again, and once
+			// more on another route (a browser retries, a rebinding page polls)
+			nrep := rapid.IntRange(0, 2).Draw(t, "repeats")
+			for k := 0; k < nrep; k++ {
+				q2, rt2, m2 := q, rt, m
+				if k == 1 {
+					rt2 = rapid.SampledFrom(routes).Draw(t, "route2")
+					m2 = rapid.SampledFrom(rt2.canonical).Draw(t, "method2")
+					q2 = rt2.build(w, m2, false)
+				}
+				if f := checkRefused(w, m2, host, q2); f != "" {
+					t.Fatalf("route %s, %s %s, Host %q (%s), request number %d in a row with this Host header: %s", rt2.name, m2, q2.target, host, class, k+2, f)
+				}
+			}
 			// positive control with a local host
 			lh := rapid.SampledFrom(localTable).Draw(t, "localhost")
 			before := snapshot()
@@ -546,7 +560,16 @@ func TestC19Host(t *testing.T) {
 				}
 				effective = r.Status < 400
 			}
+			// and after a local request has been served, the foreign name is still foreign
+			if rapid.Bool().Draw(t, "evilAfterLocal") {
+				if f := checkRefused(w, m, host, q); f != "" {
+					t.Fatalf("route %s, %s %s, Host %q (%s), right after a request with Host %q was served: %s", rt.name, m, q.target, host, class, lh, f)
+				}
+			}
 			labels := []string{"evil:" + rt.name, "evil-method:" + m, "evil-hostclass:" + class}
+			if nrep > 0 {
+				labels = append(labels, "evil-host-repeated")
+			}
 			if effective {
 				labels = append(labels, "evil-on-effective-request")
 			}
